@@ -696,3 +696,71 @@ def run(ctx):
     S.run(br, nx)
     if br.nconn < 2:
         raise Broken("C13.R7: connect() not reached in track_connect_next on both local-address outcomes (%d)" % br.nconn)
+    # ... and every attempt track gets the configured local address: the creator's local-address parameter is fed, at every
+    # call site up to the public entry, with the caller's own parameter unchanged (an attempt created without it connects unbound)
+    tc = P.fn("track_create")
+    lidx = None
+    for b, cond in C.cond_blocks(tc):
+        l, op, r = C.cond_atom(tc, cond, True)
+        ln = tc.sn(l)
+        if ln["k"] == "ref" and ln.get("dk") == "param" and "*" in (ln.get("t") or "") and (isinstance(r, tuple) or C.const_of(tc, r) == 0):
+            lab = "T" if op == "!=" else "F"
+            for bb in C.only_via_edge(tc, b, lab):
+                for e in tc.blocks[bb].elems:
+                    m = tc.nodes[e]
+                    if m["k"] == "bin" and m["op"] == "=":
+                        fl = tc.fields_of(m["l"])
+                        if fl and "local" in fl[-1] and ("ip" in fl[-1] or "addr" in fl[-1]):
+                            lidx = [i for i, p in enumerate(tc.params) if p["name"] == ln["name"]][0]
+    if lidx is None:
+        raise Broken("C13.R7: the local-address parameter of track_create was not identified")
+    work, seen7, nsite = [(tc, lidx)], set(), 0
+    while work:
+        g, j = work.pop()
+        if (g.key, j) in seen7:
+            continue
+        seen7.add((g.key, j))
+        for h, call in P.callers().get(g, []):
+            nsite += 1
+            r7.instance("%s -> %s(local address)" % (h.qname, g.name))
+            a = h.nodes[h.origin(h.nodes[call]["args"][j])]
+            if a["k"] == "ref" and a.get("dk") == "param":
+                k = [i for i, p in enumerate(h.params) if p["name"] == a["name"]][0]
+                r7.ok("%s hands its own local-address parameter to %s" % (h.qname, g.name), "value origin of the argument")
+                if h.static:
+                    work.append((h, k))
+            elif a["k"] == "member" and "local" in (a.get("field") or ""):
+                r7.ok("%s hands the socket's configured local address to %s" % (h.qname, g.name), "value origin of the argument")
+            else:
+                r7.violation("%s:local-address-not-passed" % h.name, "%s creates an attempt with `%s` in place of the configured local address: an attempt that is not given the "
+                             "address connects unbound, and a connection from another source can win" % (h.name, h.show(h.nodes[call]["args"][j])[:60]), loc=h.loc(call))
+    if nsite < 3:
+        raise Broken("C13.R7: only %d call sites pass the local address down" % nsite)
+
+    # ------------------------------------------------------------------ R8
+    r8 = ctx.rule("C13.R8", "the resolver reports the number of addresses it handed out: the result never exceeds the caller's capacity")
+    from .. import bounds as B
+    eng = B.Engine(P)
+    qr = P.fn("xcm_dns_query_result")
+    caps = [p["name"] for i, p in enumerate(qr.params) if i > 0 and "*" not in (p.get("t") or "") and "*" in (qr.params[i - 1].get("t") or "")]
+    if len(caps) != 1:
+        raise Broken("C13.R8: capacity parameter of xcm_dns_query_result not identified")
+    fb = B.FnBounds(eng, qr)
+    npos = 0
+    for nid, n in qr.nodes.items():
+        if n["k"] != "return" or n.get("sub") is None:
+            continue
+        cv = C.const_of(qr, n["sub"])
+        if cv is not None and cv <= 0:
+            continue
+        npos += 1
+        r8.instance("%s: %s" % (qr.qname, qr.show(nid)))
+        v = fb.lin(n["sub"])
+        if v is not None and fb.prove_le(fb.before.get(nid, B.Facts()), v, B.lin_term(caps[0])):
+            r8.ok("%s <= %s" % (qr.show(n["sub"]), caps[0]), "difference constraints (min idiom)")
+        else:
+            r8.violation("xcm_dns_query_result:count-exceeds-capacity", "the number of addresses reported (%s) is not bounded by the caller's capacity: a caller that asked for "
+                         "k addresses and waits for exactly k (the synchronous resolver: 1) never sees its answer, and one that trusts the count reads beyond what was copied"
+                         % qr.show(n["sub"]), loc=qr.loc(nid))
+    if npos < 1:
+        raise Broken("C13.R8: no successful return in xcm_dns_query_result")
